@@ -216,8 +216,8 @@ class Server(object):
                 self.connections.append(io)
             t = threading.Thread(target=self._run, args=(io,),
                                  name='srv-conn%d' % io.index, daemon=True)
-            self.threads.append(t)
             t.start()
+            self.threads.append(t)
 
     def _run(self, io):
         try:
